@@ -5,7 +5,7 @@ patch="$1"; prop="$2"; shift 2
 cd /repo || exit 2
 if ! git diff --quiet; then echo "refusing: /repo has uncommitted changes"; exit 2; fi
 git apply "$patch" || { echo "patch does not apply"; exit 2; }
-cd /verif
+cd /verif; mkdir -p /tmp/gixsim-mutant-run; cp known-findings.jsonl /tmp/gixsim-mutant-run/
 GIXSIM_VERIF_DIR=/tmp/gixsim-mutant-run ./check "$prop" quick "$@" 2>&1 | grep -E "^violation|^VIOLATION|^gixsim: [0-9]|KNOWN|HARNESS|error" | cut -c1-300
 rc=${PIPESTATUS[0]}
 git -C /repo checkout -- .
